@@ -232,6 +232,9 @@ def layers(tier):
     for c in chunks(seqs_of(2, 2), 8):      # duplicate index labels on the candidate set, whatever the seed
         jobs.append({'L': T22[1][0], 'R': T22[1][1], 'seqs': c, 'mode': 'ops', 'sims': ['jaccard-method', 'levenshtein-raw'],
                      'pres': 3})
+    for c in chunks(seqs_of(2, 2), 8):      # NA-backed 'string' columns with pd.NA as missing marker
+        jobs.append({'L': T22[0][0], 'R': T22[0][1], 'seqs': c, 'mode': 'ops', 'sims': ['jaccard-method', 'levenshtein-raw'],
+                     'pres': 6})
     S3 = seqs_of(3, 2, maxlen=2, repeats=False) + [[(i, j) for i in range(3) for j in range(2)],
                                                    [(i, j) for j in range(2) for i in (2, 0, 1)]]
     for c in chunks(S3, 8):                 # three left rows labelled 0,1,0: cached and uncached token paths
